@@ -46,6 +46,7 @@
 package seqpart
 
 import (
+	"context"
 	"errors"
 	"fmt"
 	"io"
@@ -55,6 +56,7 @@ import (
 	"sync"
 	"time"
 
+	"github.com/tychoish/fun"
 	"github.com/tychoish/fun/erc"
 	"github.com/tychoish/fun/ers"
 
@@ -149,13 +151,16 @@ const (
 	opJoin3
 	opSIS3
 	opPPSlice3
+	opCollRecover1
+	opCollConsume2
+	opCollHelpers3
 	numOps
 )
 
 var opNames = [...]string{"leaf", "Wrap", "Wrapf", "FmtW", "ParsePanicErr", "Join1", "Collector1", "StackPush1",
 	"Join2", "FmtWW", "ErrorsJoin2", "StackPush2", "StackAdd2", "StackInStack2", "Collector2", "CustomUnwinder2",
-	"Join3", "StackInStack3", "ParsePanicSlice3"}
-var opArity = [...]int{0, 1, 1, 1, 1, 1, 1, 1, 2, 2, 2, 2, 2, 2, 2, 2, 3, 3, 3}
+	"Join3", "StackInStack3", "ParsePanicSlice3", "CollectorRecover1", "CollectorConsume2", "CollectorHelpers3"}
+var opArity = [...]int{0, 1, 1, 1, 1, 1, 1, 1, 2, 2, 2, 2, 2, 2, 2, 2, 3, 3, 3, 1, 2, 3}
 
 type expr struct {
 	op   int
@@ -218,6 +223,12 @@ func (e *expr) String() string {
 		return `outer.Push(inner.Push(` + k[0] + `).Push(` + k[1] + `)).Push(` + k[2] + `).Resolve()`
 	case opPPSlice3:
 		return `ers.ParsePanic([]error{` + a + `})`
+	case opCollRecover1:
+		return `collector{defer erc.Recover; panic(` + a + `)}.Resolve()`
+	case opCollConsume2:
+		return `collector{erc.Consume(SliceIterator(` + a + `))}.Resolve()`
+	case opCollHelpers3:
+		return `collector{erc.Check(` + k[0] + `); Handler()(` + k[1] + `); erc.Collect(_, ` + k[2] + `)}.Future()()`
 	}
 	return "?"
 }
@@ -416,6 +427,28 @@ func eval(e *expr) (error, *mv) {
 		v, m = outer.Resolve(), combine(ms[:2], ms[2:])
 	case opPPSlice3:
 		v, m = ers.ParsePanic([]error{vs[0], vs[1], vs[2]}), combine(each(ms...)...)
+	case opCollRecover1:
+		// the collector fed by a recovered panic whose value is the error
+		ec := &erc.Collector{}
+		func() {
+			defer erc.Recover(ec)
+			if vs[0] != nil {
+				panic(vs[0])
+			}
+		}()
+		v, m = ec.Resolve(), combine(each(ms...)...)
+	case opCollConsume2:
+		// the collector fed from an iterator of errors (nil values included)
+		ec := &erc.Collector{}
+		erc.Consume(context.Background(), ec, fun.SliceIterator([]error{vs[0], vs[1]}))
+		v, m = ec.Resolve(), combine(each(ms...)...)
+	case opCollHelpers3:
+		// the collector fed through its helper entry points, read as a Future
+		ec := &erc.Collector{}
+		erc.Check(ec, func() error { return vs[0] })
+		ec.Handler()(vs[1])
+		_ = erc.Collect[int](ec)(0, vs[2])
+		v, m = ec.Future()(), combine(each(ms...)...)
 	}
 	if m != nilMV {
 		for _, k := range ms {
@@ -427,7 +460,7 @@ func eval(e *expr) (error, *mv) {
 			switch e.op {
 			case opWrap, opWrapf:
 				m.ann++
-			case opPPErr:
+			case opPPErr, opCollRecover1:
 				m.rp++
 			}
 		}
